@@ -137,8 +137,12 @@ impl HnswVectorIndex {
         })
     }
 
-    /// Add vector to index (no upserts, errors if full or wrong dimension)
-    pub fn add_vector(&mut self, doc_id: u64, embedding: &[f32]) -> Result<()> {
+    /// Check that `embedding` is a vector `add_vector` would accept (dimension, finiteness,
+    /// normalization), without touching the index.
+    ///
+    /// Callers that log a write before applying it must run this *before* the log append, so
+    /// that the index can no longer reject the vector once the append is durable.
+    pub fn validate_vector(&self, embedding: &[f32]) -> Result<()> {
         if embedding.len() != self.dimension {
             anyhow::bail!(
                 "Embedding dimension mismatch: expected {}, got {}",
@@ -148,14 +152,6 @@ impl HnswVectorIndex {
         }
         if embedding.iter().any(|v| !v.is_finite()) {
             anyhow::bail!("embedding contains non-finite values");
-        }
-
-        if self.current_count >= self.max_elements {
-            anyhow::bail!(
-                "HNSW index full: {} elements (max {})",
-                self.current_count,
-                self.max_elements
-            );
         }
 
         if matches!(
@@ -171,6 +167,21 @@ impl HnswVectorIndex {
                     norm_sq
                 );
             }
+        }
+
+        Ok(())
+    }
+
+    /// Add vector to index (no upserts, errors if full or wrong dimension)
+    pub fn add_vector(&mut self, doc_id: u64, embedding: &[f32]) -> Result<()> {
+        self.validate_vector(embedding)?;
+
+        if self.current_count >= self.max_elements {
+            anyhow::bail!(
+                "HNSW index full: {} elements (max {})",
+                self.current_count,
+                self.max_elements
+            );
         }
 
         // Backends own their internal copy/layout policy. The index API accepts slices
